@@ -21,6 +21,7 @@ from .resolver_map import ResolverMap
 from .scalars import SPECIFIED_SCALAR_TYPES
 from .types import (
     Directive,
+    EnumType,
     GraphQLAbstractType,
     GraphQLType,
     InputObjectType,
@@ -556,7 +557,7 @@ class Schema(ResolverMap):
 
         cloned._replace_types_and_directives(
             types={
-                t.name: copy.copy(t)
+                t.name: _clone_type(t)
                 for t in self.types.values()
                 if (
                     t not in SPECIFIED_SCALAR_TYPES
@@ -564,7 +565,7 @@ class Schema(ResolverMap):
                 )
             },
             directives={
-                d.name: copy.copy(d)
+                d.name: _clone_directive(d)
                 for d in self.directives.values()
                 if d not in SPECIFIED_DIRECTIVES
             },
@@ -573,6 +574,33 @@ class Schema(ResolverMap):
         cloned.merge_resolvers(self)
 
         return cloned
+
+
+def _clone_field(field):
+    cloned = copy.copy(field)
+    cloned.arguments = [copy.copy(a) for a in field.arguments]
+    return cloned
+
+
+def _clone_type(type_: NamedType) -> NamedType:
+    # Members (fields, arguments, input fields, enum values) must be copied as
+    # well: they are modified in place when fixing type references and would
+    # otherwise leak the clone's types into the source schema.
+    cloned = copy.copy(type_)
+    if isinstance(cloned, (ObjectType, InterfaceType)):
+        cloned.fields = [_clone_field(f) for f in type_.fields]  # type: ignore
+    elif isinstance(cloned, InputObjectType):
+        cloned.fields = [copy.copy(f) for f in type_.fields]  # type: ignore
+    elif isinstance(cloned, EnumType):
+        cloned._set_values([copy.copy(v) for v in cloned.values])
+    return cloned
+
+
+def _clone_directive(directive: Directive) -> Directive:
+    cloned = copy.copy(directive)
+    cloned.arguments = [copy.copy(a) for a in directive.arguments]
+    cloned.argument_map = {a.name: a for a in cloned.arguments}
+    return cloned
 
 
 def _build_directive_map(maybe_directives: List[Any]) -> Dict[str, Directive]:
